@@ -14,7 +14,8 @@ Opts == {"wrap_column", "begin_style", "use_tabs"}
 \* two admissible non-default values per option (index 1, 2); index 0 = default
 \* bad_value: a value of the wrong type (tab_width = "wide"); out_of_range: a number outside the option's domain
 \* (tab_width = 258 for an eight-bit option) - it must be rejected, not reduced to some value inside the domain
-Defects == {"none", "unknown_key", "bad_value", "out_of_range"}
+\* unreadable: the file cannot be read as text (not valid UTF-8): whichever way it was chosen, the run stops
+Defects == {"none", "unknown_key", "bad_value", "out_of_range", "unreadable"}
 
 \* a source: which value (0 = not set, 1, 2) per option, and a defect
 Sources == {s \in [wrap_column : 0..2, begin_style : 0..1, use_tabs : 0..1, defect : Defects] :
@@ -45,7 +46,8 @@ Init == /\ tree \in [0..Depth -> FewSources \cup {Absent, DirEntry}]
         /\ Cardinality({d \in 0..Depth : tree[d] # Absent}) <= 2
         /\ cfgArg \in {"none", "file", "missing", "dir"}
         /\ argSource \in (IF cfgArg = "file" THEN FewSources ELSE {NoSource})
-        /\ overrides \in {<<>>} \cup {<<a>> : a \in Single} \cup {<<a, b>> : a \in Single, b \in Single}
+        /\ LET OSingle == {a \in Single : a.defect # "unreadable"} IN        \* (a -C option is text already)
+           overrides \in {<<>>} \cup {<<a>> : a \in OSingle} \cup {<<a, b>> : a \in OSingle, b \in OSingle}
         /\ chosen = Absent /\ eff = [o \in Opts |-> 0] /\ error = FALSE /\ phase = "start" /\ touched = FALSE
 
 \* the nearest pasfmt.toml walking up from the working directory through ALL ancestors
